@@ -51,6 +51,7 @@ pub struct PatReport {
     pub samples: Vec<String>,
     pub stats: Stats,
     pub extra: Vec<(String, u64)>,
+    pub tags: Vec<String>,
 }
 
 impl PatReport {
@@ -204,7 +205,9 @@ pub fn drive<B: Body>(prop: &str, body: &B, classes: &[Cls], n: usize, cfg: &Run
                         if let Some(nc) = &s.not_covered {
                             rep.not_covered.push(std::format!("text {:?} pos {}: {}", text, pos, nc));
                         }
-                        if let Some(f) = &s.fail {
+                        // the concrete re-run carries the observation on the model text itself
+                        let fail = if s.fail.is_some() && c.fail.is_some() { &c.fail } else { &s.fail };
+                        if let Some(f) = fail {
                             rep.candidates.push(Cand {
                                 prop: prop.to_string(),
                                 what: f.what.clone(),
@@ -421,6 +424,55 @@ fn has_selfref(e: &crate::Expr, open: &mut Vec<usize>, counter: &mut usize) -> b
     }
 }
 
+/// Structural facts about a pattern that known findings are keyed on.
+pub fn structural_tags(e: &crate::Expr) -> Vec<String> {
+    fn walk(e: &crate::Expr, in_atomic_scope: bool, in_lookbehind: bool, tags: &mut Vec<String>) {
+        use crate::Expr::*;
+        let mut add = |t: &str| {
+            if !tags.iter().any(|x| x == t) {
+                tags.push(t.to_string());
+            }
+        };
+        match e {
+            Conditional { condition, true_branch, false_branch } => {
+                if in_atomic_scope {
+                    add("conditional-inside-atomic-scope");
+                }
+                // the condition of a conditional is compiled between BeginAtomic/EndAtomic
+                walk(condition, true, in_lookbehind, tags);
+                walk(true_branch, in_atomic_scope, in_lookbehind, tags);
+                walk(false_branch, in_atomic_scope, in_lookbehind, tags);
+            }
+            AtomicGroup(c) => walk(c, true, in_lookbehind, tags),
+            LookAround(c, la) => {
+                let lb = matches!(la, crate::LookAround::LookBehind | crate::LookAround::LookBehindNeg);
+                walk(c, in_atomic_scope, in_lookbehind || lb, tags)
+            }
+            KeepOut => {
+                if in_lookbehind {
+                    add("keepout-inside-lookbehind");
+                }
+            }
+            ContinueFromPreviousMatchEnd => {
+                if in_lookbehind {
+                    add("contg-inside-lookbehind");
+                }
+            }
+            Concat(v) | Alt(v) => {
+                for c in v {
+                    walk(c, in_atomic_scope, in_lookbehind, tags);
+                }
+            }
+            Group(c) => walk(c, in_atomic_scope, in_lookbehind, tags),
+            Repeat { child, .. } => walk(child, in_atomic_scope, in_lookbehind, tags),
+            _ => {}
+        }
+    }
+    let mut tags = Vec::new();
+    walk(e, false, false, &mut tags);
+    tags
+}
+
 pub fn process(cfg: &RunCfg, item: &Item) -> PatReport {
     let mut rep = PatReport::new(item);
     symx_api::clear_delegates();
@@ -440,7 +492,13 @@ pub fn process(cfg: &RunCfg, item: &Item) -> PatReport {
 
 fn process_inner(cfg: &RunCfg, item: &Item, rep: &mut PatReport) {
     match cfg.prop.as_str() {
-        "C01" | "C02" | "C05" => process_search(cfg, item, rep),
+        "C01" | "C02" | "C05" | "C15" => process_search(cfg, item, rep),
+        "C03" | "C14" | "C19" => crate::props2::process_pair(cfg, item, rep),
+        "C07" => crate::props2::process_limits(cfg, item, rep),
+        "C20" => crate::props2::process_state(cfg, item, rep),
+        "C13" => crate::props2::process_c13(cfg, item, rep),
+        "C17" => crate::props2::process_escape(cfg, item, rep),
+        "C04" => crate::props2::process_c04(cfg, item, rep),
         other => {
             rep.status = std::format!("error:unknown property {}", other);
         }
@@ -468,6 +526,7 @@ fn process_search(cfg: &RunCfg, item: &Item, rep: &mut PatReport) {
     };
     rep.insn_kinds = b.insn_kinds;
     rep.fancy = b.fancy;
+    rep.tags = structural_tags(&tree.expr);
     let rp = refsem::build(&tree.expr);
     if let Some(u) = &rp.unsupported {
         rep.status = std::format!("skipped:{}", u);
@@ -475,11 +534,11 @@ fn process_search(cfg: &RunCfg, item: &Item, rep: &mut PatReport) {
     }
     let mut compare_ref = true;
     if cfg.prop != "C05" {
-        if rp.has_f1 {
+        if rp.has_f1 && item.gen != "f1-witness" {
             rep.status = "skipped:F1 class (unbounded repeat over a body that can match empty)".to_string();
             return;
         }
-        if rp.has_contg || rp.has_cond {
+        if rp.has_contg || (rp.has_cond && cfg.prop != "C15") {
             // outside C01/C02's grammar (C08 / C15 cover them)
             rep.status = "skipped:outside the property's grammar".to_string();
             return;
@@ -512,17 +571,32 @@ const OPS_FULL: [&str; 17] =
 fn feats_for(prop: &str) -> u32 {
     match prop {
         "C01" | "C02" => corpus::FEATS_C01,
+        "C15" => corpus::FEATS_C01 | corpus::F_COND | corpus::F_NAMED,
         "C05" => corpus::FEATS_ALL,
         _ => corpus::FEATS_C01,
     }
 }
 
 pub fn work_list(cfg: &RunCfg) -> WorkList {
+    if let Some(w) = crate::props2::work_list(cfg) {
+        return w;
+    }
     let feats = feats_for(&cfg.prop);
     let thorough = cfg.tier == "thorough";
     let mut fixed: Vec<Item> = Vec::new();
     for w in corpus::WITNESSES.iter() {
         fixed.push(Item::new(w, "witness"));
+    }
+    if cfg.prop == "C01" {
+        for w in corpus::F1_WITNESSES.iter() {
+            fixed.push(Item::new(w, "f1-witness"));
+        }
+    }
+    if cfg.prop == "C15" {
+        for w in ["(a)?(?(1)b|c)", "(?(a)b|c)", "(?(a)b)", "(a)?(?(1))b", "(?<n>a)?(?(<n>)b|c)", "(?:(a)|b)(?(1)c|d)", "(?:(?(a)b|c))+", "(?>(?(a)b|c)d|.)", "(?(?=a)ab|c)", "(?(?!a)b|a)",
+                  "(?(a)b|c|d)", "(?((?(b)a))b|a)", "(?(a)(?(b)c|d)|e)", "(?:(a)|b)*(?(1)c)", "(a)?(?:(?(1)b|c))*d", "(?=(a))?(?(1)a|b)", "(?(a*)b|c)", "(?(a|ab)c|d)", "((?(2)a|b))(c)?"].iter() {
+            fixed.push(Item::new(w, "witness"));
+        }
     }
     let (atoms, ops, size): (&[&str], &[&str], usize) =
         if thorough { (&ATOMS_SMALL, &OPS_FULL, 4) } else { (&ATOMS_SMALL, &OPS_QUICK, 3) };
@@ -540,7 +614,10 @@ pub fn work_list(cfg: &RunCfg) -> WorkList {
     WorkList { fixed, random_enabled: true, feats, max_depth: if thorough { 4 } else { 3 } }
 }
 
-pub fn random_item(_cfg: &RunCfg, w: &WorkList, rng: &mut Rng, _k: usize) -> Item {
+pub fn random_item(cfg: &RunCfg, w: &WorkList, rng: &mut Rng, k: usize) -> Item {
+    if let Some(it) = crate::props2::random_item(cfg, w, rng, k) {
+        return it;
+    }
     let p = corpus::random_pattern(rng, w.feats, w.max_depth);
     Item::new(&p, "random")
 }
@@ -650,8 +727,9 @@ pub fn write_output(cfg: &RunCfg, reports: &[PatReport], _stats: &Stats, wall: f
             }
             first = false;
             s.push_str(&std::format!(
-                "{{\"prop\":{},\"what\":{},\"op\":{},\"pattern\":{},\"variant\":{},\"gen\":{},\"casei\":{},\"limit\":{},\"text\":{},\"text_str\":{},\"pos\":{},\"arg\":{},\"observed\":{},\"expected\":{}}}",
+                "{{\"prop\":{},\"tags\":[{}],\"what\":{},\"op\":{},\"pattern\":{},\"variant\":{},\"gen\":{},\"casei\":{},\"limit\":{},\"text\":{},\"text_str\":{},\"pos\":{},\"arg\":{},\"observed\":{},\"expected\":{}}}",
                 jstr(&c.prop),
+                r.tags.iter().map(|t| jstr(t)).collect::<Vec<_>>().join(","),
                 jstr(&c.what),
                 jstr(&c.op),
                 jstr(&c.pattern),
